@@ -392,6 +392,9 @@ struct BearServer : BearEndpoint {
 				br_x509_minimal_set_hash(xc.get(), id, br_ssl_engine_get_hash(eng, id));
 			br_ssl_engine_set_x509(eng, custom_x509 ? custom_x509 : &xc->vtable);
 			br_ssl_server_set_trust_anchor_names_alt(ss.get(), FX_TAS, FX_TAS_NUM);
+			// a server that asks for client certificates verifies CertificateVerify signatures itself
+			if (p.esp) { br_ssl_engine_set_rsavrfy(eng, &br_rsa_i15_pkcs1_vrfy); br_ssl_engine_set_ecdsa(eng, &br_ecdsa_i15_vrfy_asn1); br_ssl_engine_set_ec(eng, &br_ec_all_m15); }
+			else { br_ssl_engine_set_default_rsavrfy(eng); br_ssl_engine_set_default_ecdsa(eng); br_ssl_engine_set_default_ec(eng); }
 		}
 		if (p.cache) br_ssl_server_set_cache(ss.get(), &p.cache->vtable);
 		setup_buffers(p);
